@@ -114,6 +114,8 @@ class Sys(e1.TimedSys):
                 acts.append(("stop", k, a))
         for a in self.addrs:
             acts.append(("removeall", a))
+        if self.cfg.get("connlost"):
+            acts.append(("connlost",))  # the endpoint reports its connection lost (it is not started again)
         if self.cfg.get("sequences") and self.mode == "discover":
             # several entries for one key in ONE SD message, through the whole receive path: the last one counts
             for seq in ((2, 1, 2), (1, 2, 1), (1, 0, 1), (INF, 1, INF), (0, 1), (0, INF)):
@@ -196,6 +198,13 @@ class Sys(e1.TimedSys):
                 self.listener.reject.add(6)
             else:
                 self.listener.reject.discard(6)
+        elif act[0] == "connlost":
+            # through the protocol object, which defers the teardown of its parts by one callback: everything known is
+            # reported gone now, nothing expires afterwards; offers that arrive later are stored again
+            self.prot.connection_lost(None)
+            for (aa, k) in sorted(self.model.deadline):
+                del self.model.deadline[(aa, k)]
+                self.expect.append((now, "gone", k, aa))
         elif act[0] == "removeall":
             a = act[1]
             if self.mode == "discover":
@@ -322,6 +331,11 @@ def configs(ctx):
             out.append((f"{mode}-1key-clock-origin-{origin}",
                         dict(mode=mode, keys=("K1",), addrs=("A1",), ttls=(1, 2, 3, INF), advs=(None, "half", "next"),
                              fine=0, origin=float(origin)), CLOSURE))
+        if mode == "discover":
+            # connection losses reported by the endpoint (one after the other, with offers in between)
+            out.append(("discover-2keys-connection-loss",
+                        dict(mode=mode, keys=("K1", "K2"), addrs=("A1",), ttls=(1, INF), advs=(None, "half", "next"), fine=0,
+                             connlost=True), CLOSURE))
         # two keys, two addresses, the long TTLs
         out.append((f"{mode}-2keys-2addrs",
                     dict(mode=mode, keys=("K1", "K2"), addrs=("A3", "A4"), ttls=(1, 3, 0xFFFFFE, INF), advs=base_advs,
